@@ -8,8 +8,8 @@ EXPLANATION = (
     "each entry tag to its own rank (containers between null and string). R04.2: the header-kind switch of compare and compare_container "
     "handles every kind pair with the outcomes the ranking demands (scalar vs container split on null), constant outcomes are antisymmetric, "
     "delegating calls pass (left, right) operands in order; compare_scalar compares ranks first, then same-kind entries with left.cmp(right) "
-    "on decoded numbers / strings and recursion into compare_container. R04.3 = R18.4 (no lossy numeric comparison). R04.4 = R11.1 on "
-    "compare (each argument dispatched on its own representation). R04.5: walker discipline on compare_array/compare_object (each side's "
+    "on decoded numbers / strings and recursion into compare_container. R04.3 = R18.4 (no lossy numeric comparison). R04.4 = R11.1 + R11.3 on "
+    "compare (each argument dispatched on its own representation; the re-dispatching calls pass (left, right) in order). R04.5: walker discipline on compare_array/compare_object (each side's "
     "payload cursor advances by the length of its own entry). R04.6: a non-Equal element result is returned unchanged and the fall-through "
     "is left_length.cmp(right_length). NOT decided: reflexivity/antisymmetry/transitivity as such, Equal <=> value-equal.")
 
@@ -21,6 +21,7 @@ def check(ctx, run):
     ordering.r04_2b(ctx, run)
     numcodec.r18_4(ctx, run, rule='R04.3/R18.4')
     dispatch.r11_1(ctx, run, rule='R04.4/R11.1', only={'functions::compare'})
+    dispatch.r11_3(ctx, run, rule='R04.4/R11.3', only={'functions::compare'})
     only = lambda p: p.startswith('functions::compare')
     walkers.w_init(ctx, run, 'R04.5/R05.1', only=only, floor=4)
     walkers.w_advance(ctx, run, 'R04.5/R05.2', only=only, floor=4)
